@@ -398,7 +398,20 @@ def _cellocc_cases():
             return (r, [pool.index(x) for x in c._agents], c.empty)
         return call
 
-    return {"Cell.agents": (gen, lambda a: [pool.index(x) for x in cell(a).agents]),
+    def gen_move(rng):
+        return {"self": {"unique_id": rng.randrange(8)}, "cell": [rng.randrange(-1, 5) for _ in range(rng.choice([1, 2, 2, 3]))]}
+
+    def call_move(a):
+        from mesa.discrete_space.cell_agent import BasicMovement
+        calls = []
+
+        class Mover(BasicMovement):          # what `move_to` touches: the `cell` property, whose setter records its argument
+            cell = property(lambda self: None, lambda self, c: calls.append(list(c.coordinate)))
+
+        BasicMovement.move_to(Mover(), Cell(tuple(a["cell"]), random=random.Random(0)))
+        return calls
+
+    return {"BasicMovement.move_to": (gen_move, call_move), "Cell.agents": (gen, lambda a: [pool.index(x) for x in cell(a).agents]),
             "Cell.is_empty": (gen, lambda a: cell(a).is_empty), "Cell.is_full": (gen, lambda a: cell(a).is_full),
             "Cell.add_agent": (gen, mutate("add_agent")), "Cell.remove_agent": (gen, mutate("remove_agent"))}
 
